@@ -3,6 +3,7 @@ package props
 import (
 	"fmt"
 	"go/token"
+	"go/types"
 
 	"golang.org/x/tools/go/ssa"
 
@@ -125,4 +126,108 @@ func c06URLInvalidEscape(c *core.Check) {
 		}
 	})
 	r.Cond(bad == "", key, p.Pos(decode.Pos()), fmt.Sprintf("with the %d backslash tests true and the %d newline-prefix tests true, only the bad-url path is reachable", nBack, nPrefix), bad+": `url(a\\<newline>)` is read as a valid url of value `a\\`")
+}
+
+// c06URLAtEOF (R14): an unquoted url cut by the end of the input is a url token plus an EOF parse error (CSS Syntax
+// §4.3.6: "EOF: this is a parse error. Return the <url-token>"), never a bad-url.  In consumeUrl, from every test of
+// the cursor against the input length that can still lead to a url, the end-of-input side only reaches returns whose
+// first result is a URL token.
+func c06URLAtEOF(c *core.Check) {
+	p := c.Prog
+	r := c.Rule("R14", "consumeUrl at the end of the input: from each comparison of the cursor with the input length from which a url token can still be returned, the side where the input is exhausted (every such comparison decided that way) reaches only returns of a url token — never the bad-url remnants", 2)
+	fn := p.Lookup("css/parser.(*tokenizer).consumeUrl")
+	if fn == nil {
+		r.Anchor("css/parser.(*tokenizer).consumeUrl")
+		return
+	}
+	isURLReturn := func(ret *ssa.Return) bool {
+		if len(ret.Results) == 0 {
+			return false
+		}
+		mi, ok := ret.Results[0].(*ssa.MakeInterface)
+		if !ok {
+			return false
+		}
+		nm, ok := mi.X.Type().(*types.Named)
+		return ok && nm.Obj().Name() == "URL"
+	}
+	// atoms: cursor (a load of a field named pos) compared with a length
+	type atom struct {
+		v   *ssa.BinOp
+		eof bool // truth value meaning "input exhausted"
+	}
+	var atoms []atom
+	isPos := func(v ssa.Value) bool {
+		ld, ok := v.(*ssa.UnOp)
+		if !ok {
+			return false
+		}
+		fa, ok := ld.X.(*ssa.FieldAddr)
+		return ok && core.FieldName(fa) == "pos"
+	}
+	isLen := func(v ssa.Value) bool {
+		if call, ok := v.(*ssa.Call); ok {
+			if b, ok := call.Call.Value.(*ssa.Builtin); ok && b.Name() == "len" {
+				return true
+			}
+		}
+		if phi, ok := v.(*ssa.Phi); ok {
+			return phi.Comment == "L"
+		}
+		return false
+	}
+	for _, a := range core.CondAtoms(fn) {
+		bo, ok := a.(*ssa.BinOp)
+		if !ok || !isPos(bo.X) || !(isLen(bo.Y) || valueText(bo.Y) != "" && isLenValue(fn, bo.Y)) {
+			continue
+		}
+		switch bo.Op {
+		case token.LSS:
+			atoms = append(atoms, atom{bo, false})
+		case token.GEQ:
+			atoms = append(atoms, atom{bo, true})
+		}
+	}
+	if len(atoms) == 0 {
+		r.Unknown("css/parser.(*tokenizer).consumeUrl | end of input", p.Pos(fn.Pos()), "no comparison of the cursor with the input length")
+		return
+	}
+	assign := map[ssa.Value]bool{}
+	for _, a := range atoms {
+		assign[a.v] = a.eof
+	}
+	n := 0
+	for _, a := range atoms {
+		// can a url still be returned from here?
+		free := core.ForwardReach(a.v.Block(), nil, nil)
+		can := false
+		core.Instrs(fn, func(in ssa.Instruction) {
+			if ret, ok := in.(*ssa.Return); ok && free[in.Block()] && isURLReturn(ret) {
+				can = true
+			}
+		})
+		if !can {
+			continue // inside the remnants of a bad url
+		}
+		n++
+		key := fmt.Sprintf("css/parser.(*tokenizer).consumeUrl | end of input at test #%d", n)
+		reach := core.ForwardReach(a.v.Block(), assign, nil)
+		bad := ""
+		core.Instrs(fn, func(in ssa.Instruction) {
+			if ret, ok := in.(*ssa.Return); ok && reach[in.Block()] && !isURLReturn(ret) {
+				bad = p.Pos(ret.Pos())
+			}
+		})
+		r.Cond(bad == "", key, p.Pos(a.v.Pos()), "the exhausted input only leads to returns of a url token", "with the input exhausted the return at "+bad+" is reached, which does not return a url token: `url(foo.png ` at the end of the input becomes a bad-url")
+	}
+}
+
+// isLenValue: v is the local that holds len(tk.src) (named L in the source).
+func isLenValue(fn *ssa.Function, v ssa.Value) bool {
+	call, ok := v.(*ssa.Call)
+	if !ok {
+		return false
+	}
+	b, ok := call.Call.Value.(*ssa.Builtin)
+	return ok && b.Name() == "len"
 }
